@@ -211,3 +211,36 @@ def _getattr(self, interp, name):
 
 
 NumpyO.sym_getattr = _getattr
+
+
+_F32.dtype = _np.dtype("float32")  # so that native NumPy accepts the stand-in wherever a dtype is expected
+
+
+def _has_sym(x):
+    if is_sym(x):
+        return True
+    if isinstance(x, (list, tuple)):
+        return any(_has_sym(v) for v in x)
+    if isinstance(x, _np.ndarray) and x.dtype == object:
+        return any(is_sym(v) for v in x.reshape(-1))
+    return False
+
+
+def _np_array(self, interp, x, dtype=None, *a, **k):
+    if _has_sym(x):
+        return _np.array(x, dtype=object).view(OArr)
+    if dtype is F32:
+        dtype = _np.float32
+    return _np.array(x, dtype, *a, **k) if dtype is not None else _np.array(x, *a, **k)
+
+
+def _np_asarray(self, interp, x, dtype=None, **k):
+    if _has_sym(x):
+        return x if isinstance(x, _np.ndarray) else _np.array(x, dtype=object).view(OArr)
+    if dtype is F32:
+        dtype = _np.float32
+    return _np.asarray(x, dtype=dtype, **k)
+
+
+NumpyO.np_array = _np_array
+NumpyO.np_asarray = _np_asarray
